@@ -200,6 +200,49 @@ def compare(d, ins, exp, zero, alts=(), floor_ops=None):
     return bad
 
 
+def carry_targets(text):
+    """'Enter here and on Form 1040, 1040-SR, or 1040-NR, line 8.' -> [('1040', '8')]"""
+    from ..instr import clean, form_of, LABEL
+    t = clean(text)
+    out = []
+    for m in re.finditer(r'(?:[Ee]nter|[Ii]nclude)\b[^.]*? on (?:[0-9]{4} )?((?:Form|Schedule) [^.;]*?), line ' + LABEL + r'\b', t):
+        if re.search(r'\bincluded on\b', m.group(0)):
+            continue
+        f = form_of(m.group(1))
+        if f:
+            out.append((f, m.group(2)))
+    return out
+
+
+def carry_coefficients(an, year, td, src, src_form, depth=0):
+    """weights with which the line `src` enters the value paths of the target definition, following lines of the
+    source form that merely combine it (e.g. a per-person total); None when not linear"""
+    out = []
+    for p in td.paths:
+        if p.outcome.kind != 'ret':
+            continue
+        v = p.outcome.value
+        if not isinstance(v, E) and v in BLANK:
+            continue
+        try:
+            l = lin_of(v) if isinstance(v, E) or isinstance(v, (int, float)) else None
+        except NonLinear:
+            return None
+        if l is None:
+            return None
+        c = l.terms.get(('a', src), 0)
+        # follow intermediate lines of the source form (one level) that contain the source line
+        for (t, w) in l.terms.items():
+            if t[0] == 'a' and t[1] != src and t[1].startswith(f'v:{src_form}.') and depth < 2:
+                mid = an.defs.get((year, src_form, t[1].split('.', 1)[1]))
+                if mid is not None:
+                    sub = carry_coefficients(an, year, mid, src, src_form, depth + 1)
+                    if sub:
+                        c += w * max(sub)
+        out.append(c)
+    return out
+
+
 def compare_status_table(cat, year, d, tab, enum):
     """per filing status: every value the definition can return is the amount printed for that status.
     -> list of mismatches, or None when the definition is not a per-status constant (not armed)"""
@@ -254,7 +297,7 @@ def check(tree, rep, tier='quick', seed=0):
                        'sentence grammar (add / combine / subtract [floor at zero] / conditional subtract / multiply by rate, amount or line / smaller or larger of / '
                        'copy / carry from a named schedule) and armed only when the whole sentence parses and every operand is an implemented line; (2) the linear '
                        'normal form of every value-returning path of the line definition (abstract interpretation; float()/round() erased; gated unimplemented '
-                       'lines count as 0). Every armed line must agree on every path; a definition may only restrict when a value is produced.')
+                       'lines count as 0). Every armed line must agree on every path; a definition may only restrict when a value is produced. Carries are also checked from the sending end (R2.7): where a line says "enter here and on Form X, line N", line N of that form takes this line once, unchanged, on the paths that use it (intermediate totals of the sending form are followed).')
     rep.rule_text = 'obligation = one armed (year, form, line) with a fully parsed arithmetic instruction; distinct = distinct (rule, year, form, line)'
     rep.exhaustive = True
     rep.assumptions = ['lines whose instruction is prose, per-payer listings and constants looked up per filing status are not armed (counted); numeric equality on concrete returns is not decided',
@@ -264,6 +307,7 @@ def check(tree, rep, tier='quick', seed=0):
     exceptions = load_data('c02_exceptions.json')
     n_armed = n_prose = n_unarmed = 0
     kinds = {}
+    carries = []
     for y in cat.years:
         zero = zero_lines(an, y)
         f1040 = cat.find(y, '1040')
@@ -302,6 +346,8 @@ def check(tree, rep, tier='quick', seed=0):
                     if line in ctx.fmap:
                         sources.append((line, text, f'sa/data/worksheets/{fr.form_name}.txt'))
             for line, text, where in sources:
+                for (tform, tline) in carry_targets(text):
+                    carries.append((y, fr, line, tform, tline, text, where))
                 ins = parse(text)
                 key = f'{y}/{fr.name}.{line}'
                 if ins is None and re.search(r'Enter the (?:following )?amount (?:shown below )?for your filing status', text):
@@ -353,6 +399,31 @@ def check(tree, rep, tier='quick', seed=0):
                 rep.ob('R2', key, not bad,
                        f'{y} {fr.name} line {line}: the form says "{_short(text)}" ({ins!r}) but the definition {"; ".join(bad[:2])}', d.where,
                        sample={'line': key, 'instruction': _short(text), 'parsed': repr(ins), 'expected': repr(exp)})
+    # ---- R2.7 "enter here and on Form X, line N": the named line of the other form carries this line (both ends equal)
+    n_carry = 0
+    for (y, fr, line, tform, tline, text, where) in carries:
+        tfr = cat.find(y, tform)
+        if tfr is None or tfr.rec is None:
+            continue          # the other form is not implemented (C10 decides what a reference to it does)
+        td = an.defs.get((y, tfr.name, tline))
+        key = f'{y}/{fr.name}.{line}->{tfr.name}.{tline}'
+        if td is None:
+            rep.ob('R2.7', key, False, f'{y} {fr.name} line {line} says "{_short(text)}" but {tfr.name} has no line {tline}', where)
+            continue
+        if f'v:{tfr.name}.{tline}' in zero_lines(an, y) or all(p.outcome.kind == 'raise' for p in td.paths):
+            continue          # gated / unimplemented target
+        src = f'v:{fr.name}.{line}'
+        coeffs = carry_coefficients(an, y, td, src, fr.name)
+        if coeffs is None:
+            rep.undecide(f'{key}: target definition is not linear in the carried line')
+            continue
+        n_carry += 1
+        ok = 1 in coeffs and all(c in (0, 1) for c in coeffs)
+        rep.ob('R2.7', key, ok,
+               f'{y} {fr.name} line {line} says "{_short(text)}" but {tfr.name} line {tline} takes it with weight(s) {sorted(set(float(c) for c in coeffs))} '
+               f'(it must enter once, unchanged, on the paths that use it): the two ends of the carry differ', td.where,
+               sample={'source': f'{fr.name}.{line}', 'target': f'{tfr.name}.{tline}'})
+    rep.floor('carry statements (enter here and on ...) checked at the receiving line', n_carry, 35)
     # ---- R2.5 amounts carried for the taxpayer and for the spouse come from their own copies (sibling symmetry, shared with C16)
     from ..symmetry import atom_symmetry
     sym_exc = {e['line'] for e in load_data('symmetry_exceptions.json')}
